@@ -553,22 +553,18 @@ orc_program_add_constant_str (OrcProgram *program, int size,
   char *end;
   orc_int64 val_i;
   double val_d;
+  orc_union64 val;
   int j;
 
   i = ORC_VAR_C1 + program->n_const_vars;
 
-  if (program->n_const_vars >= ORC_MAX_CONST_VARS) {
-    orc_program_set_error (program, "too many constants allocated");
-    return 0;
-  }
-
   val_i = _strtoll (value, &end, 0);
   if (end[0] == 0) {
-    program->vars[i].value.i = val_i;
+    val.i = val_i;
     if (size == 0)
       size = 4;
   } else if ((end[0] == 'l' || end[0] == 'L') && end[1] == 0) {
-    program->vars[i].value.i = val_i;
+    val.i = val_i;
     if (size == 0)
       size = 8;
   } else {
@@ -577,11 +573,11 @@ orc_program_add_constant_str (OrcProgram *program, int size,
     if (end[0] == 0) {
       orc_union32 u;
       u.f = val_d;
-      program->vars[i].value.i = u.i;
+      val.i = u.i;
       if (size == 0)
         size = 4;
     } else if ((end[0] == 'l' || end[0] == 'L') && end[1] == 0) {
-      program->vars[i].value.f = val_d;
+      val.f = val_d;
       if (size == 0)
         size = 8;
     } else {
@@ -592,14 +588,14 @@ orc_program_add_constant_str (OrcProgram *program, int size,
   if (size <= 4) {
     /* same representation as orc_program_add_constant(), whose value is an
      * int: 0xfffffff7 and -9 are the same 32-bit constant */
-    program->vars[i].value.i = (orc_int32) program->vars[i].value.i;
+    val.i = (orc_int32) val.i;
   }
 
   /* Literal operands (the parser names them "_<size>.<text>") share an
    * existing constant of the same value; a constant declared under a name of
    * its own must stay addressable by that name. */
   for(j=0;j<program->n_const_vars;j++){
-    if (program->vars[ORC_VAR_C1 + j].value.i == program->vars[i].value.i &&
+    if (program->vars[ORC_VAR_C1 + j].value.i == val.i &&
         program->vars[ORC_VAR_C1 + j].size == size &&
         (name[0] == '_' ||
          strcmp (program->vars[ORC_VAR_C1 + j].name, name) == 0)) {
@@ -607,7 +603,14 @@ orc_program_add_constant_str (OrcProgram *program, int size,
     }
   }
 
+  /* only a constant that needs a slot of its own can run out of them */
+  if (program->n_const_vars >= ORC_MAX_CONST_VARS) {
+    orc_program_set_error (program, "too many constants allocated");
+    return 0;
+  }
+
   program->vars[i].vartype = ORC_VAR_TYPE_CONST;
+  program->vars[i].value = val;
   program->vars[i].size = size;
   program->vars[i].name = strdup(name);
   program->n_const_vars++;
